@@ -5,6 +5,10 @@ HERE = os.path.dirname(os.path.dirname(os.path.abspath(__file__)))
 
 # id -> (technique, level text, level note, design section)
 CHECKS = {
+ "C14": ("exhaustive enumeration of unsorted modules (all duplicate-free sequences over 6 kinds x 4 names up to length 3/4, all ordered pairs of list kinds, singletons at every position, two modules) with permutation / grouping / reload / idempotence oracles",
+         "All duplicate-free sequences of up to 3 (thorough 4) elements over 6 element kinds and the names {aa, ab, b, ba}, every ordered pair of the 22 module-level list kinds with and without comments, each singleton at every position, two modules in both orders, the rich corpus documents. After sort(): every list holds the same elements with unchanged content; in the written text each kind is contiguous and names ascend; the written file reloads to an equal model in equal list order and is a textual fixpoint; a second sort() changes nothing.",
+         "names are lower-case ASCII without digits so that every reading of 'alphabetical' agrees",
+         "DESIGN.md 5/C14"),
  "C11": ("exhaustive single-reference (thorough: pairwise) corruption of a fully consistent generated module over every covered position x every alternative target class; exhaustive structural-oddity grid for totality",
          "One consistent module in which each of the 48 reference positions inspected by check() is populated (empty report required) x every alternative target of the position's namespace class: missing, another kind of the same namespace, NO_COMPU_METHOD / NO_INPUT_QUANTITY / NO_INVERSE_TRANSFORMER, THIS.<component> valid and invalid, a name of another namespace; thorough adds all pairs. The names in the CrossReferenceErrors must equal the names made missing. Totality: 8 characteristic types x 0..7 AXIS_DESCR x 5 axis kinds x 3 record layouts for CHARACTERISTIC and TYPEDEF_CHARACTERISTIC, duplicate names, cycles, empty lists, REF_MEMORY_SEGMENT without MOD_PAR, every corpus document and the cleanup modules: check() returns and the model is unchanged.",
          "'covered' positions are those check() inspects at the pinned commit (DESIGN appendix A, column K)",
